@@ -212,8 +212,8 @@ func c13RunSeqHistory(run *vk.Run, st *c13SeqStats, hidx int, ops []c13Op) {
 	report := func(i int, sig string, op c13Op, exp c13Exp, got c13Got, extra map[string]any) {
 		d := map[string]any{
 			"history": hidx, "op_index": i, "op": op.String(), "key_state_before": exp.State,
-			"expected": map[string]any{"err": exp.Err, "bool": exp.B, "has_bool": exp.HasB, "value": exp.V, "has_value": exp.HasV, "remaining_lo_ns": exp.DLo, "remaining_hi_ns": exp.DHi},
-			"got":      map[string]any{"err": got.Err, "err_text": got.ErrText, "bool": got.B, "value": got.V, "remaining_ns": got.D, "panic": got.Panic},
+			"expected":       map[string]any{"err": exp.Err, "bool": exp.B, "has_bool": exp.HasB, "value": exp.V, "has_value": exp.HasV, "remaining_lo_ns": exp.DLo, "remaining_hi_ns": exp.DHi},
+			"got":            map[string]any{"err": got.Err, "err_text": got.ErrText, "bool": got.B, "value": got.V, "remaining_ns": got.D, "panic": got.Panic},
 			"history_prefix": c13PrefixStrings(ops, i),
 		}
 		for k, v := range extra {
